@@ -3,6 +3,7 @@
    Print Assumptions.  GENERATED skeleton (tools/mkprops.py), statements are the ones Coq prints for the lemmas. *)
 From Coq Require Import ZArith List Bool String Reals.
 From VQ Require Import Num Model.Vec Model.Core Proofs.CoreNearest Glue.CoreGlue.
+From VQ Require Import Model.Einops Model.Layout Glue.EinopsGlue.
 Import ListNotations.
 Open Scope R_scope.
 
@@ -172,3 +173,60 @@ Theorem C01_tie_rpq_forces_eval :
   map fst o_rpq_eval.o_rpq_eval = ["self.vq.eval"; "self.vq"].
 Proof. exact (@glue_rpq_forces_eval). Qed.
 Print Assumptions C01_tie_rpq_forces_eval.
+
+(* implicit *)
+Theorem C01_src_heads_shared_in :
+  forall A : Type,
+       exists p : pattern,
+         role_pattern pr_vq.pr_vq
+           "VectorQuantize.maybe_split_heads_from_input:return@not (self.separate_codebook_per_head)"
+           "rearrange" 0 = @Some pattern p /\
+         wf_rearrange p = true /\
+         (forall (e : env) (X : nat -> nat -> nat -> A) (bh n d : nat),
+          (bh < e "b" * e "h")%nat ->
+          (n < e "n")%nat ->
+          (d < e "d")%nat ->
+          @rearr A p e (@of3 A X) [0%nat; bh; n; d] = @heads_shared_in A (e "h") (e "d") X bh n d).
+Proof. exact (@EinopsGlue.einops_heads_shared_in). Qed.
+Print Assumptions C01_src_heads_shared_in.
+
+(* implicit *)
+Theorem C01_src_heads_sep_in :
+  forall A : Type,
+       exists p : pattern,
+         role_pattern pr_vq.pr_vq
+           "VectorQuantize.maybe_split_heads_from_input:return@self.separate_codebook_per_head" "rearrange" 0 =
+         @Some pattern p /\
+         wf_rearrange p = true /\
+         (forall (e : env) (X : nat -> nat -> nat -> A) (h b n d : nat),
+          (h < e "h")%nat ->
+          (b < e "b")%nat ->
+          (n < e "n")%nat ->
+          (d < e "d")%nat -> @rearr A p e (@of3 A X) [h; b; n; d] = @heads_sep_in A (e "d") X h b n d).
+Proof. exact (@EinopsGlue.einops_heads_sep_in). Qed.
+Print Assumptions C01_src_heads_sep_in.
+
+(* implicit *)
+Theorem C01_src_heads_shared_idx :
+  forall A : Type,
+       exists p : pattern,
+         role_pattern pr_vq.pr_vq "VectorQuantize.forward:embed_ind" "rearrange" 1 = @Some pattern p /\
+         wf_rearrange p = true /\
+         (forall (e : env) (J : nat -> nat -> A) (b n h : nat),
+          (b < e "b")%nat ->
+          (n < e "n")%nat ->
+          (h < e "h")%nat -> @rearr A p e (@of1_2 A J) [b; n; h] = @heads_shared_idx A (e "h") J b n h).
+Proof. exact (@EinopsGlue.einops_heads_shared_idx). Qed.
+Print Assumptions C01_src_heads_shared_idx.
+
+(* implicit *)
+Theorem C01_src_heads_sep_idx :
+  forall A : Type,
+       exists p : pattern,
+         role_pattern pr_vq.pr_vq "VectorQuantize.forward:embed_ind" "rearrange" 0 = @Some pattern p /\
+         wf_rearrange p = true /\
+         (forall (e : env) (J : nat -> nat -> nat -> A) (b n h : nat),
+          (b < e "b")%nat ->
+          (n < e "n")%nat -> (h < e "h")%nat -> @rearr A p e (@of3 A J) [b; n; h] = @heads_sep_idx A J b n h).
+Proof. exact (@EinopsGlue.einops_heads_sep_idx). Qed.
+Print Assumptions C01_src_heads_sep_idx.
